@@ -133,7 +133,7 @@ Definition write_lp_bytes (buf bs : bytes) : wres :=
 Record cur := Cur { c_rdone : bytes; c_rest : bytes }.
 Inductive sres := SOk (c : cur) | SErr (n : N) | SPanic.
 
-Definition c_done (c : cur) : bytes := rev (c_rdone c).
+Definition c_done (c : cur) : bytes := rev_append (c_rdone c) [].          (* = rev (c_rdone c), linear *)
 Definition total (c : cur) : N := blen (c_rdone c).
 
 (* n, err := w(dst[total:], …); total += n; if err != nil { return total, err }
